@@ -145,7 +145,10 @@ def check_case(ctx, rng):
     els = rng.choice(LITS + ['NULL', 'null', 'b1', 'a + 1', "DATE '2020-01-01'"]) if rng.random() < 0.5 else None
     if rng.random() < 0.3:
         parts = [(c, rng.choice(['NULL', 'x1', 'f(1, 2)'])) for c, v in parts]
-    text = 'SELECT CASE' + ''.join(w(rng) + 'WHEN ' + c + ' THEN ' + v for c, v in parts) + ((w(rng) + 'ELSE ' + els) if els else '') + w(rng) + 'END FROM t'
+    # what follows END: a clause, the end of the statement, an alias, a comment (align_comments appends a following comment to the Case node, so the node
+    # then ends `END <blank> <comment>`), a comma and another item
+    tail = rng.choice([' FROM t', '', ' AS c FROM t', ' /* label */ FROM t', ' -- label\nFROM t', ' /* label */', ' -- label', '\n/* l */\nFROM t', ', b FROM t', ' c1, b FROM t'])
+    text = 'SELECT CASE' + ''.join(w(rng) + 'WHEN ' + c + ' THEN ' + v for c, v in parts) + ((w(rng) + 'ELSE ' + els) if els else '') + w(rng) + 'END' + tail
     stmt = sqlparse.parse(text)[0]
     ctx.evaluations += 1
     ctx.count('case:%d' % k)
